@@ -3,6 +3,7 @@
 package stun_test
 
 import (
+	"fmt"
 	"math/rand"
 	"runtime"
 	"sync"
@@ -126,7 +127,23 @@ func freeRun(tw *traceWriter, run int) {
 	closeDone := make(chan struct{})
 	for i := 1; i <= n; i++ {
 		if i == closeAt {
+			// a second, concurrent Close: exactly one of the two may succeed
 			go func() {
+				defer func() {
+					if x := recover(); x != nil {
+						emit(map[string]interface{}{"k": "libpanic", "report": fmt.Sprint("concurrent Close panicked: ", x)})
+					}
+				}()
+				err := cli.Close()
+				emit(map[string]interface{}{"k": "close_ret2", "err": fmtErr(err)})
+			}()
+			go func() {
+				defer func() {
+					if x := recover(); x != nil {
+						emit(map[string]interface{}{"k": "libpanic", "report": fmt.Sprint("Close panicked: ", x)})
+						close(closeDone)
+					}
+				}()
 				emit(map[string]interface{}{"k": "close_call"})
 				err := cli.Close()
 				alive := libGoroutinesOf(cli)
